@@ -272,9 +272,6 @@ impl ImmutContext<'_> {
     }
 }
 
-/// the rules of the validated file as File::get_rules lists them (one per struct / enum variant, declaration order)
-pub uninterp spec fn file_rules(f: &File) -> Seq<Rule<'_>>;
-
 /// terminal names / nonterminal names of the validated file, in declaration order (table columns)
 pub open spec fn file_terms(f: &File) -> Seq<DollarlessTerminalName> { f.terminal_enum.variants@.map_values(|v: TerminalVariant| v.dollarless_name) }
 pub open spec fn file_nts(f: &File) -> Seq<Seq<char>> { f.nonterminals@.map_values(|nt: Nonterminal| nt_name(nt)) }
